@@ -725,13 +725,24 @@ func TestVerifReplayChainSync(t *testing.T) {
 		h := newCS(t, in.Par, in.Start, in.Batch, newVStore())
 		h.ptip = sc.Ptip
 		tr.Emit(csLine{Tr: sc.ID, Act: csNorm(csAct{A: "init"}), St: h.project(), Obs: []csCB{}, Adv: sc.Adv})
+		panicked := false
 		for _, a := range sc.Steps {
+			before := h.project()
 			skip := h.step(a)
+			if len(skip) >= 5 && skip[:5] == "PANIC" {
+				// locks may still be held by the panicking call: do not touch the node again
+				tr.Emit(csLine{Tr: sc.ID, Act: csNorm(a), St: before, Obs: []csCB{}, Skip: skip, Adv: sc.Adv})
+				panicked = true
+				break
+			}
 			if skip != "" {
 				tr.Emit(csLine{Tr: sc.ID, Act: csNorm(a), St: h.project(), Obs: h.takeObs(), Skip: skip, Adv: sc.Adv})
 				continue
 			}
 			tr.Emit(csLine{Tr: sc.ID, Act: csNorm(a), St: h.project(), Obs: h.takeObs(), Adv: sc.Adv})
+		}
+		if panicked {
+			continue
 		}
 		if sc.Complete {
 			h.complete(tr, sc.ID, sc.Adv, 700)
